@@ -9,6 +9,20 @@ mkdir -p .build evidence replays
 (cd tools/rscp2lean && go build -o ../../.build/rscp2lean .)
 .build/rscp2lean "${VERIF_REPO:-/repo}" lean/Rscp/Gen
 (cd lean && lake build Rscp driver)
+# every module a claimed check needs (so that the first check does not pay for the proofs)
+MODS=$(python3 - <<'PY'
+import sys, os
+sys.path.insert(0, os.path.join(os.getcwd(), "checks"))
+from props import PROPS
+from claims import CLAIMS
+mods = set()
+for pid in CLAIMS:
+    mods.update(PROPS[pid]["lean"])
+    mods.add("Rscp.Audit." + pid)
+print(" ".join(sorted(mods)))
+PY
+)
+(cd lean && lake build $MODS)
 cp "${VERIF_REPO:-/repo}/go.sum" harness/go.sum
 python3 - <<'PY'
 import json, os
